@@ -1180,6 +1180,9 @@ class CSSMatch(_DocumentNav):
             """Find this input's form."""
             form = None
             parent = self.get_parent(el, no_iframe=True)
+            if parent is None:
+                # The element is the top of its own (`iframe`) document: the group cannot extend beyond it
+                return el
             while form is None:
                 if self.get_tag(parent) == 'form' and self.is_html_tag(parent):
                     form = parent
